@@ -54,6 +54,24 @@ def run_roundtrip(case, ctx):
                 rng = np.random.default_rng(case["obs_seed"])
                 for _ in range(2):
                     agent.get_action(sp.sample_obs(obs_space, 3, rng))
+            if case.get("resumed"):
+                # the agent under test has itself been restored from an earlier checkpoint and has lived on since
+                # ("every history ... before the save": a resumed run saves again)
+                p0 = os.path.join(d, "generation0.pt")
+                agent.save_checkpoint(p0)
+                if case["resumed"] == 1:
+                    fresh = _wrap(ag.build(dict(spec, seed=spec["seed"] + 2), hp_config=ag.make_hp_config(algo)), wrapper, spec)
+                    fresh.load_checkpoint(p0)
+                    agent = fresh
+                else:
+                    agent = type(_inner(agent)).load(p0)
+                if wrapper == "rsnorm":
+                    for _ in range(2):
+                        agent.get_action(sp.sample_obs(obs_space, 4, rng))
+                else:
+                    ag.seed_all(case["cseed"])
+                    ag.learn_once(agent, spec, case["cseed"] + 77)
+                ctx.label("saved-by-a-resumed-agent")
             inner = _inner(agent)
             inner.scores = [1.0, 2.5]
             inner.fitness = [0.5] + [float(x) for x in case["fitness"]]
@@ -180,7 +198,7 @@ def rt_strategy(draw, tier):
     wrapper = "none"
     if spec["algo"] in ag.SINGLE_DISCRETE + ag.SINGLE_CONT + ag.ONPOLICY and (
             spec["obs"] in ("vector", "image") or (spec["obs"] == "dict" and spec["obsv"] % 3 != 1)):
-        wrapper = draw(st.sampled_from(["none", "none", "rsnorm"]))
+        wrapper = draw(st.sampled_from(["none", "rsnorm"]))
     h = draw(hist.history_strategy(3 if tier == "quick" else 8, kinds=("learn", "mutate", "clone", "act")))
     if draw(st.integers(0, 9)) < 6:  # make sure saved architectures differ from the defaults and targets lag
         kind = draw(st.sampled_from(["arch", "arch", "act", "param", "rl_hp"]))
@@ -188,7 +206,8 @@ def rt_strategy(draw, tier):
     return {"spec": spec, "wrapper": wrapper, "history": h,
             "paths": draw(st.sampled_from([["load_classmethod"], ["load_checkpoint"], ["load_classmethod", "load_checkpoint"]])),
             "fitness": draw(st.lists(st.integers(-3, 3), max_size=3)),
-            "continue": draw(st.integers(0, 3)), "cseed": draw(st.integers(0, 999)), "obs_seed": draw(st.integers(0, 999))}
+            "continue": draw(st.integers(0, 3)), "cseed": draw(st.integers(0, 999)), "obs_seed": draw(st.integers(0, 999)),
+            "resumed": draw(st.sampled_from([0, 0, 1, 2]))}
 
 
 PROPERTY = Property(
